@@ -236,6 +236,18 @@ class Monitor:
                 self.bad("C03", f"close-out before {date.date()}: stock before {fmt(self.post_prev)} != stock after "
                                 f"{fmt(tot_pre)} + decayed {fmt(dec)} (water or mass appeared/disappeared between timesteps)")
 
+    def leak_unplaced(self, node):
+        """for a Distribution with leakage: the part of what it leaked in this timestep that groundwater did not take (None
+        when the node is no such Distribution or all of the leak was placed)"""
+        l = getattr(node, "leakage", 0)
+        if type(node).__name__ not in ("Distribution", "UnlimitedDistribution") or not l:
+            return None
+        num = (lambda x: frac(x)) if self.mode == "exact" else float
+        drawn = sum(num(b.vqip_in["volume"]) for b in node.in_arcs.values())
+        leaked = sum(num(b.vqip_in["volume"]) for b in node.out_arcs.values() if type(b.out_port).__name__ == "Groundwater")
+        un = num(l) * drawn - leaked
+        return un if un > (DUST if self.mode == "exact" else 1e-9) else None
+
     def late_pull_upstream(self, node, seen=None):
         seen = seen if seen is not None else set()
         if node.name in seen:
@@ -344,6 +356,13 @@ class Monitor:
                 known = None
                 if type(a).__name__ in ("Arc", "PullArc", "SewerArc", "WeirArc") and self.late_pull_upstream(a.in_port):
                     known = "late-pull"
+                elif type(a).__name__ in ("Arc", "PullArc") and self.leak_unplaced(a.in_port) is not None:
+                    # recorded known finding distribution-leakage-bounced-to-consumer, by mechanism (its books, as in the
+                    # probes): the supplier is a Distribution with leakage, part of what it leaked in this timestep was not
+                    # taken by groundwater, and the arc is over its capacity by no more than that unplaced leak
+                    over = (frac(a.flow_in) - frac(a.capacity)) if self.mode == "exact" else (a.flow_in - a.capacity)
+                    if over <= self.leak_unplaced(a.in_port) + (DUST if self.mode == "exact" else 1e-9):
+                        known = "distribution-leakage-bounced-to-consumer"
                 self.bad("C05", f"{date.date()} arc {a.name}: admitted {a.flow_in} > capacity {a.capacity}", known)
         # C03 within the timestep: stock changes only through declared boundaries (and decay)
         scale = max([abs(float(x)) for x in tot_post] + [1.0]) if self.mode != "exact" else 1
